@@ -105,6 +105,17 @@ def programs(tier: str):
             disp = [dict(okb) for _ in range(k)]
             disp[pos] = {"enter": "ok", "exit": "ok", "yields": "one"}
             yield {"block": {"kind": "ascope", "supply": [], "disp": disp, "pause": False, "ending": "return"}, "cancels": 0}
+    # the `disposables=` argument in its other legal forms: a tuple, a one-shot generator / iterator,
+    # a Disposables object built by the caller
+    for form in ("tuple", "generator", "iterator", "object"):
+        for k in (1, 2, 3):
+            for yields in ("none", "one"):
+                for bad in (None, ("ok", "raise"), ("raise", "ok")):
+                    for ending, cancels in bodies:
+                        disp = [{"enter": "ok", "exit": "ok", "yields": yields} for _ in range(k)]
+                        if bad:
+                            disp[-1] = {"enter": bad[0], "exit": bad[1], "yields": "none"}
+                        yield {"block": {"kind": "ascope", "supply": [], "disp": disp, "disp_form": form, "pause": bool(cancels), "ending": ending}, "cancels": cancels}
     # two events in one loop iteration (two disposables finishing a step, or one of them and the
     # cancellation of the body)
     beh2 = [b for b in _behaviours(False) if b["yields"] == "none"]
